@@ -8,6 +8,7 @@ the result must equal the model's treeReduce exactly, which pins parent/child ar
 Additionally: asyncs are issued and a free-function reduction is called without a barrier; all handlers must
 have run on every rank when it returns.  The mpi_typeof table and the per-collective sequence of MPI calls
 (barrier first) are compared with the model's tables."""
+import collections
 import math
 import struct
 import zlib
@@ -536,6 +537,7 @@ def eval_prims(job, sr, res, use_model=True):
                                     "case": dict(base, verdict=sr.verdict, blocked=sr.blocked)})
         return 0
     cur = {}
+    cfb = []       # (cfb+ / cfb-, k, rank) in global log order
     seqs = []      # (rank, name, [tokens])
     for line in sr.log:
         sp = line.split(" ")
@@ -547,6 +549,9 @@ def eval_prims(job, sr, res, use_model=True):
             continue
         r = int(d["r"])
         if kind == "h":
+            if sp[3] in ("cfb+", "cfb-"):
+                cfb.append((sp[3], int(sp[4]), r))
+                continue
             if sp[3] == "enter":
                 cur[r] = (sp[4], [])
             elif sp[3] == "exit" and r in cur:
@@ -567,6 +572,16 @@ def eval_prims(job, sr, res, use_model=True):
             tok = "treegather"
         if tok and (not cur[r][1] or cur[r][1][-1] != tok):
             cur[r][1].append(tok)
+    # cf_barrier is a barrier: in the global order of the run no rank leaves barrier k before every rank has entered it
+    entered = collections.defaultdict(set)
+    for (what, k, r) in cfb:
+        if what == "cfb+":
+            entered[k].add(r)
+        elif len(entered[k]) < R:
+            res.oracle_failures.append({"what": f"cf_barrier #{k}: rank {r} of {R} left while only ranks {sorted(entered[k])} had entered",
+                                        "signature": "cf-barrier-left-early", "case": dict(base, barrier=k, rank=r, entered=sorted(entered[k]))})
+            break
+    res.count("cf_barrier exits judged", sum(1 for c in cfb if c[0] == "cfb-"))
     names = sorted(set(n for _, n, _ in seqs))
     mp = {}
     if use_model:
